@@ -193,7 +193,7 @@ class Problem(object):
         for xy in self.live:
             for r in self.resources:
                 tot = sum(self.vres[v].get(r, 0) for v in seen if seen[v] == xy)
-                if tot > self.free(xy, r):
+                if tot > max(0, self.free(xy, r)):
                     return "over-capacity", "chip %r resource %r: demand %r > capacity %r - reserved %r" % (
                         xy, r, tot, self.cap(xy, r), self.reserved(xy, r))
         for k in self.cons:
